@@ -228,7 +228,8 @@ def _scenario(spec, rnd, d, logdir, res):
                                 raise
                             yield gen.sleep(0.02)
                 info['switched'] = wsw.name
-            act = rnd.choice(['restart', 'reload', 'kill9', 'restart'])
+            act = rnd.choice(['restart', 'reload', 'kill9', 'restart'] if not sib_stubborn else
+                             ['reload', 'reload', 'kill9', 'restart'])
             try:
                 if act == 'restart':
                     yield sib.restart()
